@@ -459,6 +459,15 @@ def run_traced(name, spec, seed, size, budgets, evaluator="map", explicit=False,
                               self_.max_population_size, getattr(getattr(self_, "mutator", None), "arity", None)))
         return _orig(self_, algorithm)
     _px.AdaptiveTimeContinuationExtension.restart = _traced_restart
+    _orig_check = _px.AdaptiveTimeContinuationExtension.check
+
+    def _traced_check(self_, algorithm, _orig=_orig_check):
+        r_ = _orig(self_, algorithm)
+        if algorithm is alg:
+            tr.events.append(("check", len(algorithm.population), len(algorithm.archive), bool(r_), self_.frequency, self_.max_window_size,
+                              self_.population_ratio, self_.min_population_size, self_.max_population_size, type(self_).__name__))
+        return r_
+    _px.AdaptiveTimeContinuationExtension.check = _traced_check
     with patched_random(rng):
         try:
             kw = {"evaluator": ev}
@@ -561,6 +570,7 @@ def run_traced(name, spec, seed, size, budgets, evaluator="map", explicit=False,
             err = f"{type(e).__name__}: {e} @ " + traceback.format_exc().strip().split("\n")[-3].strip()
         finally:
             _px.AdaptiveTimeContinuationExtension.restart = _orig_restart
+            _px.AdaptiveTimeContinuationExtension.check = _orig_check
             wd.__exit__(None, None, None)
             if closer:
                 closer()
